@@ -19,7 +19,7 @@ import (
 
 // C02: the DNS engine answer equals the reference resolution over all rules.
 
-var c02Hosts = []string{"ads.com", "sub.ads.com", "xads.com", "ads.com.evil.org", "tracker.io", "cdn.tracker.io", "example.org", "a.example.org", "localhost", "1.2.3.4", "printer", "ads.co.uk"}
+var c02Hosts = []string{"ads.com", "sub.ads.com", "xads.com", "ads.com.evil.org", "tracker.io", "cdn.tracker.io", "example.org", "a.example.org", "localhost", "1.2.3.4", "printer", "ads.co.uk", "bce.ca", "fe.abc.de", "feed.cafe"}
 
 // c02Applicable classifies a spec: must the DNS engine use it?
 func c02Applicable(s *gen.Spec) ref.Tri {
@@ -297,7 +297,7 @@ func c02Run(c *core.Ctx, idx int) {
 	}
 	var contents []string
 	for _, p := range parts {
-		contents = append(contents, util.Lines(p))
+		contents = append(contents, util.LinesEOL(p, []string{"\n", "\n", "\r\n"}[c.Rng.Intn(3)]))
 	}
 	storage := util.Storage(contents...)
 	eng := urlfilter.NewDNSEngine(storage)
